@@ -202,6 +202,51 @@ def ring_assembly(rnd):
     return m
 
 
+def observe_edits(case):
+    """ring sets / components / marks read before and after every edit of a small history (a stale cache must not survive)"""
+    from chython import smiles
+    rnd = random.Random(case['rs'])
+    try:
+        m = smiles(case['smi'])
+        m.kekule()
+        m.clean_stereo()
+    except Exception as e:
+        return [{'skip': type(e).__name__}]
+    out = []
+
+    def look():
+        m2, _ = chy.renumbered(m, rnd)
+        out.append(record(m, m2))
+    look()
+    for _ in range(case['steps']):
+        nums = list(m._atoms)
+        op = rnd.choice(['link8', 'link8', 'add', 'del', 'del8', 'del8', 'delatom', 'newfrag'])
+        try:
+            if op in ('link8', 'add') and len(nums) >= 2:
+                a, b = rnd.sample(nums, 2)
+                if b not in m._bonds[a]:
+                    m.add_bond(a, b, 8 if op == 'link8' else 1)
+            elif op == 'del':
+                bl = [(p, q) for p, q, bd in m.bonds()]
+                if bl:
+                    m.delete_bond(*rnd.choice(bl))
+            elif op == 'del8':
+                bl = [(p, q) for p, q, bd in m.bonds() if bd._order == 8]
+                if bl:
+                    m.delete_bond(*rnd.choice(bl))
+            elif op == 'delatom' and len(nums) > 2:
+                m.delete_atom(rnd.choice(nums))
+            else:
+                x = m.add_atom(rnd.choice(['Cu', 'N', 'O', 'Zn']))
+                if rnd.random() < .7:
+                    m.add_bond(x, rnd.choice(nums), 8)
+        except Exception as e:
+            out.append({'exc': type(e).__name__})
+            break
+        look()
+    return out
+
+
 def observe_assembly(case):
     rnd = random.Random(case['rs'])
     m = ring_assembly(rnd)
@@ -249,6 +294,23 @@ def run(ck):
     if cases:
         recs = vlib.pmap('checks.c06', 'observe_assembly', cases)
         res = ck.validate('assemblies', 'Trace_C06', cases, recs)
+        ck.ood('theta-gap-or-dense-cage', res['out'].count('"INFO"'))
+    # (c2) reads interleaved with edits (coordinate bonds between fragments, deletions): derived ring / component data stay right
+    sel = chy.pick([x for x in corp if len(x) < 50], 60 if ck.quick else 800, ck.seed, 7) + ['c1ccncc1.N.[Cu]', 'NCCN.[Ni]', 'C1CC1.C1CC1', '[Na+].[Cl-]']
+    cases = ck.select('after-edits', [{'key': f'edits:{s}:{ck.seed}', 'smi': s, 'rs': ck.seed * 13 + k, 'steps': 6} for k, s in enumerate(sel)])
+    if cases:
+        res = vlib.pmap('checks.c06', 'observe_edits', cases)
+        recs, cs = [], []
+        for c, lst in zip(cases, res):
+            if isinstance(lst, dict):
+                raise vlib.Machinery(lst.get('_observer_error', '') + lst.get('_tb', ''))
+            for q, r in enumerate(lst):
+                if 'skip' in r or 'exc' in r:
+                    ck.ood('skipped-or-raised:' + str(r.get('exc', r.get('skip'))))
+                    continue
+                recs.append(r)
+                cs.append(dict(c, key=f'{c["key"]}#{q}'))
+        res = ck.validate('after-edits', 'Trace_C06', cs, recs)
         ck.ood('theta-gap-or-dense-cage', res['out'].count('"INFO"'))
     # (d) the repository's ring test set
     f = os.path.join(chy.REPO, 'test', 'cycle.sdf')
